@@ -325,6 +325,44 @@ func trustedKeyMatch(t TrustedSite, key string) bool {
 	return len(key) >= len(pre)+len(suf) && strings.HasPrefix(key, pre) && strings.HasSuffix(key, suf)
 }
 
+// callerKeys, when set by the rule raising an obligation, gives for a site inside a helper that is
+// not in the baseline list (a function a later change extracted) the keys the same construct has
+// in each of the helper's callers (function name and parameters replaced). If every one of them is
+// a trusted site, the relocated construct is covered by the same written arguments.
+func (c *Ctx) trustedThroughCallers(o *Obligation, keys []string) bool {
+	if len(keys) == 0 {
+		return false
+	}
+	var used []int
+	for _, k := range keys {
+		found := -1
+		for i, t := range c.trusted {
+			if ruleFamily(t.Rule) == ruleFamily(o.Rule) && t.Key == k && len(t.Premises) == 0 {
+				found = i
+			}
+		}
+		if found < 0 {
+			return false
+		}
+		used = append(used, found)
+	}
+	o.Verdict = Trusted
+	o.Detail += " [trusted: the construct was moved into a helper outside the baseline; in every caller's terms it is the reviewed site " + strings.Join(keys, ", ") + ": " + c.trusted[used[0]].Reason + "]"
+	for _, i := range used {
+		c.usedTr[i] = true
+	}
+	return true
+}
+
+// FailVia is Fail with the keys of the same construct in the callers of a relocated helper.
+func (c *Ctx) FailVia(rule, key string, pos token.Pos, detail string, callerKeys []string, facts ...string) {
+	o := c.add(&Obligation{Rule: rule, Key: key, Pos: c.P.Pos(pos), Verdict: Violation, Detail: detail, Facts: facts})
+	c.classify(o)
+	if o.Verdict == Violation {
+		c.trustedThroughCallers(o, callerKeys)
+	}
+}
+
 func (c *Ctx) classify(o *Obligation) {
 	for i, t := range c.trusted {
 		if ruleFamily(t.Rule) == ruleFamily(o.Rule) && trustedKeyMatch(t, o.Key) {
